@@ -241,15 +241,32 @@ def private_member_specs(draw):
                                        "optional": {"k": "optional", "sp": "Optional", "a": [c]}}[shape]
 
 
+@st.composite
+def classvar_member_specs(draw):
+    """A plain (non-dataclass) annotated class with a ClassVar member of a type that needs conversion - such a class hands its
+    class variables out with its fields; what is written for them must be plain data too."""
+    S = U.S
+    leaf = draw(st.sampled_from([S("Decimal"), S("UUID"), S("date"), S("datetime"), S("timedelta"), S("PurePosixPath"), S("Fraction")]))
+    fl = draw(st.sampled_from(["plain", "slots"]))
+    c = {"k": "class", "name": "WithCV", "mod": 0, "flavour": fl, "future": draw(st.booleans()),
+         "fields": [{"n": "a", "t": S("int")}, {"n": "b", "t": S("str"), "default": True}], "classvars": [{"n": "kind", "t": leaf}]}
+    shape = draw(st.sampled_from(["class", "list", "dict"]))
+    return c if shape == "class" else {"list": {"k": "list", "sp": "list", "a": [c]}, "dict": {"k": "dict", "sp": "dict", "a": [S("str"), c]}}[shape]
+
+
 def plan(tier, seed):
     n = 300 if tier == "quick" else 2000
     depth = 4 if tier == "quick" else 6
     shards = [{"seed": seed * 1000 + k, "n": n, "depth": depth, "adversarial": k % 4 == 3} for k in range(16)]
     shards += [{"seed": seed * 1000 + 80 + k, "n": 150 if tier == "quick" else 2000, "private": True} for k in range(2)]
+    shards += [{"seed": seed * 1000 + 85, "n": 100 if tier == "quick" else 1000, "classvar": True}]
     return shards
 
 
 def run_shard(shard, col):
+    if shard.get("classvar"):
+        progs.drive_programs(col, seed=shard["seed"], n=shard["n"], spec_strategy=classvar_member_specs(), per_program=per_program)
+        return
     if shard.get("private"):
         progs.drive_programs(col, seed=shard["seed"], n=shard["n"], spec_strategy=private_member_specs(), per_program=per_program)
         return
